@@ -261,6 +261,62 @@ pub fn run_send(args: &[String]) -> i32 {
             }
             w.put(&json!({"id": -1, "mode": if header_mode { "header" } else { "pass_through" }, "failed_operations_injected": failed_before}));
         }
+        // a peer that stops reading for longer than the connection's timeout while a frame larger than the socket buffers is being
+        // written, then reads again: whatever the operations returned, what the peer reads must be whole frames, one per operation that
+        // reported success (Connection.tla: FramesIntact -- an operation does not return, with or without an error, between two writes
+        // of its frame while the connection stays usable)
+        for header_mode in [false, true] {
+            let Some(mut cp) = connected_pair(&listener, header_mode).await else {
+                w.put(&json!({"tool_error": "could not connect (stalled peer)"}));
+                return;
+            };
+            let a = ExternalPid::new(Atom::new(LOCAL), 1, 0, 1);
+            let b = ExternalPid::new(Atom::new(PEER), 2, 0, 1);
+            let big = OwnedTerm::Binary(vec![7u8; 24 * 1024 * 1024]);
+            let conn = &mut cp.conn;
+            let rd = &mut cp.peer.rd;
+            let (rs, frames) = tokio::join!(
+                async {
+                    let r1 = conn.send_message(a.clone(), b.clone(), big).await.map_err(|e| format!("{e:?}").chars().take(60).collect::<String>());
+                    let r2 = conn.link(&a, &b).await.map_err(|e| format!("{e:?}").chars().take(60).collect::<String>());
+                    let r3 = conn.send_message(a.clone(), b.clone(), OwnedTerm::Integer(5)).await.map_err(|e| format!("{e:?}").chars().take(60).collect::<String>());
+                    vec![r1, r2, r3]
+                },
+                async {
+                    tokio::time::sleep(Duration::from_millis(2600)).await;
+                    let mut fs: Vec<Value> = Vec::new();
+                    let mut torn = Value::Null;
+                    loop {
+                        use tokio::io::AsyncReadExt;
+                        let mut l = [0u8; 4];
+                        match tokio::time::timeout(Duration::from_millis(2500), rd.read_exact(&mut l)).await {
+                            Ok(Ok(_)) => {}
+                            _ => break,
+                        }
+                        let n = u32::from_be_bytes(l) as usize;
+                        let mut body = vec![0u8; n.min(64 * 1024 * 1024)];
+                        let mut got = 0usize;
+                        let t0 = std::time::Instant::now();
+                        while got < body.len() && t0.elapsed() < Duration::from_millis(4000) {
+                            match tokio::time::timeout(Duration::from_millis(1500), rd.read(&mut body[got..])).await {
+                                Ok(Ok(k)) if k > 0 => got += k,
+                                _ => break,
+                            }
+                        }
+                        if got < body.len() || n > 64 * 1024 * 1024 {
+                            torn = json!({"announced": n, "arrived": got});
+                            break;
+                        }
+                        fs.push(frame_json(&body));
+                    }
+                    (fs, torn)
+                }
+            );
+            let (fs, torn) = frames;
+            w.put(&json!({"id": -2, "mode": if header_mode { "header" } else { "pass_through" }, "stalled_peer": true,
+                          "results": rs.iter().map(|r| match r { Ok(()) => json!("ok"), Err(e) => json!(e) }).collect::<Vec<_>>(),
+                          "frames": fs, "stream_ends_inside_a_frame": torn, "state_after": format!("{:?}", cp.conn.state())}));
+        }
     });
     w.finish();
     0
